@@ -132,6 +132,8 @@ def _run_shard_pyopt(args):
         toks = {"opt"} if mode is True else set(str(mode).split("+"))
         env = dict(os.environ)
         argv = [sys.executable, "-W", "ignore::DeprecationWarning"]
+        if "werror" in toks:
+            argv = [sys.executable, "-W", "error"]                        # every warning is an exception (as under pytest -W error): a non-deprecated path must not warn
         if "opt" in toks:
             argv.insert(1, "-OO" if "hashseed" in toks else "-O")       # assert statements (and, with -OO, docstrings) stripped
         if "bb" in toks:
@@ -154,7 +156,7 @@ def _run_shard_pyopt(args):
         r["crash"] = "child did not run with -bb"
     r["classes"] = {"pyopt:" + k: v for k, v in r["classes"].items()}
     r["nontrivial"] = {"pyopt:" + k for k in r["nontrivial"]}
-    tag = "[python %s] " % " ".join(x for x in argv[1:] if x in ("-O", "-OO", "-bb")) if (toks & {"opt", "bb"}) else "[other PYTHONHASHSEED] "
+    tag = "[python %s] " % " ".join(x for x in argv[1:] if x in ("-O", "-OO", "-bb", "error")).replace("error", "-W error") if (toks & {"opt", "bb", "werror"}) else "[other PYTHONHASHSEED] "
     for v in r["violations"]:
         v["what"] = tag + v["what"]
     return r
@@ -171,6 +173,8 @@ def _run_shard(args):
     try:
         mod = importlib.import_module("vf.props." + prop.lower())
         mod.run(ctx, name, **kwargs)
+        from vf import gen as _gen
+        _gen.audit_issued(ctx)
     except Exception as e:
         # An exception that was RAISED INSIDE the library and escaped through a call the harness makes unguarded (unguarded = the
         # inputs are valid and the call has to succeed) is an observation about the library, not a harness failure.  Anything
